@@ -6,6 +6,7 @@ import (
 	"runtime"
 	"runtime/debug"
 	"sort"
+	"strings"
 	"sync"
 	"sync/atomic"
 	"time"
@@ -602,6 +603,12 @@ func runSchedules(e *core.Env) {
 					// a Write and a Read/WriteTo of the same direction both blocked for good
 					rec.Violate("schedules", i, core.Sig("kind", "deadlock", "part", "schedules", "how", "stalled-writer-and-reader-of-one-direction"), det,
 						"%s and %s are both blocked and nothing runs any more (no call or return for %s of wall time)", opName(w), opName(rd), stallAfter)
+				} else if nw, holder := lockWaiters(h); nw > 0 && !holder {
+					// structural: goroutines of THIS pipe wait in sync.Mutex.Lock inside PipeConn.write, and no goroutine
+					// is inside the section that mutex protects - whoever took it has returned without releasing it,
+					// and nothing that is still alive can ever release it
+					rec.Violate("schedules", i, core.Sig("kind", "deadlock", "part", "schedules", "how", "write-lock-held-by-nobody"), det,
+						"%d Write call(s) wait for the pipe's write lock, which no live goroutine holds: %v", nw, pendingOps(evs))
 				} else {
 					rec.Inconclusive("stalled")
 				}
@@ -763,4 +770,33 @@ func orderHash(evs []*ev) uint64 {
 		fmt.Fprintf(h, "%d.%d.%d.%d.%s;", e.W, e.Idx, e.Kind, e.N, e.Err)
 	}
 	return h.Sum64()
+}
+
+// lockWaiters inspects the stacks of all goroutines: how many are parked in sync.Mutex.Lock called from
+// (*PipeConn).write of one of h's two ends, and is any goroutine inside write of the same end beyond the Lock call
+// (the lock's holder)? The receiver pointer printed in the traceback tells the pipes of concurrent cases apart.
+func lockWaiters(h *hist) (waiters int, holder bool) {
+	buf := make([]byte, 8<<20)
+	buf = buf[:runtime.Stack(buf, true)]
+	ptr := [2]string{fmt.Sprintf("(%p", h.ends[0]), fmt.Sprintf("(%p", h.ends[1])}
+	waitEnd := [2]int{}
+	holdEnd := [2]bool{}
+	for _, g := range strings.Split(string(buf), "\n\n") {
+		for e := 0; e < 2; e++ {
+			if !strings.Contains(g, "netio.(*PipeConn).write"+ptr[e]) {
+				continue
+			}
+			if strings.Contains(g, "sync.(*Mutex).Lock") {
+				waitEnd[e]++
+			} else {
+				holdEnd[e] = true
+			}
+		}
+	}
+	for e := 0; e < 2; e++ {
+		if waitEnd[e] > 0 && !holdEnd[e] {
+			return waitEnd[e], false
+		}
+	}
+	return waitEnd[0] + waitEnd[1], true
 }
